@@ -104,6 +104,8 @@ class NpSym:
                 return sp.Abs(self.ev(e.args[0]))
             if f in ("np.exp", "exp"):
                 return sp.exp(self.ev(e.args[0]))
+            if f in ("np.tanh", "tanh", "np.cos", "cos", "np.sin", "sin") and f.split(".")[-1] not in self.env:
+                return getattr(sp, f.split(".")[-1])(self.ev(e.args[0]))
             if f in ("np.mod",):
                 a, b = self.ev(e.args[0]), self.ev(e.args[1])
                 return Wrap(a) if sp.simplify(b - 2 * PI) == 0 else Function("mod")(a, b)
